@@ -90,38 +90,53 @@ func (sc *Scenario) shapeLabels(ems []em, st *stats) {
 			per[e.idx] = append(per[e.idx], e.ts)
 		}
 	}
+	// pending: the distinct timestamps known to be queued, with multiplicities
+	var ds []int64
+	var cs []int
+	add := func(t int64) {
+		p := sort.Search(len(ds), func(i int) bool { return ds[i] >= t })
+		if p < len(ds) && ds[p] == t {
+			cs[p]++
+			return
+		}
+		ds = append(ds, 0)
+		copy(ds[p+1:], ds[p:])
+		ds[p] = t
+		cs = append(cs, 0)
+		copy(cs[p+1:], cs[p:])
+		cs[p] = 1
+	}
+	remove := func(t int64) {
+		p := sort.Search(len(ds), func(i int) bool { return ds[i] >= t })
+		if p >= len(ds) || ds[p] != t {
+			return
+		}
+		if cs[p]--; cs[p] == 0 {
+			ds = append(ds[:p], ds[p+1:]...)
+			cs = append(cs[:p], cs[p+1:]...)
+		}
+	}
+	for j := 0; j < n; j++ {
+		if len(per[j]) > 0 {
+			add(per[j][0])
+		}
+	}
 	cnt := make([]int, n)
-	examined := 0
-	buf := make([]int64, 0, n)
 	for _, e := range ems {
 		if e.idx < 0 || e.idx >= n {
 			continue
 		}
+		remove(e.ts)
 		cnt[e.idx]++
 		if cnt[e.idx] >= len(per[e.idx]) {
 			continue // not queued again within the trace
 		}
-		if examined++; examined > 300 {
-			return
-		}
 		next := per[e.idx][cnt[e.idx]]
-		buf = buf[:0]
-		for j := 0; j < n; j++ {
-			if j != e.idx && cnt[j] < len(per[j]) {
-				buf = append(buf, per[j][cnt[j]])
-			}
-		}
-		sort.Slice(buf, func(a, b int) bool { return buf[a] < buf[b] })
-		d := buf[:0]
-		for _, x := range buf {
-			if len(d) == 0 || d[len(d)-1] != x {
-				d = append(d, x)
-			}
-		}
-		below, above, _ := distinctBeside(d, next)
+		below, above, _ := distinctBeside(ds, next)
 		if above >= deepAt && below >= 1 {
 			st.label("deep-insert-at-requeue")
 			return
 		}
+		add(next)
 	}
 }
